@@ -199,3 +199,79 @@ Proof.
       destruct s' as [|y s'']; [reflexivity|]. cbn [drop_while]. destruct (P y); reflexivity. }
   apply H. lia.
 Qed.
+
+(* ---------------------------------------------------------------- a symbol is one token *)
+Fixpoint take_while (P : N -> bool) (s : text) : text :=
+  match s with x :: s' => if P x then x :: take_while P s' else [] | [] => [] end.
+
+Lemma take_drop_while P s : take_while P s ++ drop_while P s = s.
+Proof. induction s as [|x s IH]; cbn; [reflexivity|]. destruct (P x); cbn; [rewrite IH|]; reflexivity. Qed.
+
+Lemma firstn_take_while P s : firstn (length s - length (drop_while P s)) s = take_while P s.
+Proof.
+  assert (Hl : length s - length (drop_while P s) = length (take_while P s)).
+  { rewrite <- (take_drop_while P s) at 1. rewrite app_length. lia. }
+  rewrite Hl. rewrite <- (take_drop_while P s) at 2.
+  rewrite firstn_app, Nat.sub_diag, firstn_all. cbn [firstn]. apply app_nil_r.
+Qed.
+
+(* Scanner.match on a text that starts with a class character, when the (class)+ terminal t is the first candidate that
+   matches: the token is the whole run of class characters -- however long -- and the rest starts at the first character
+   outside the class *)
+Theorem class_plus_token cands_before t cands_after body P x s :
+  tm_re t = RPlus body -> is_class body P -> P x = true ->
+  (forall u, In u cands_before -> rmatch (tm_re u) (x :: s) = None) ->
+  first_match (cands_before ++ t :: cands_after) (x :: s) = Some (tm_id t, x :: take_while P s, drop_while P s).
+Proof.
+  intros Hre Hc Hx Hbefore. induction cands_before as [|u l IH]; cbn [app first_match].
+  - rewrite Hre, (plus_class_munch body P Hc (x :: s)), Hx. f_equal. f_equal.
+    pose proof (firstn_take_while P (x :: s)) as H. cbn [drop_while take_while] in H. rewrite Hx in H. exact (f_equal (fun l => (tm_id t, l)) H).
+  - rewrite (Hbefore u (or_introl eq_refl)). apply IH. intros v Hv. apply Hbefore. right. exact Hv.
+Qed.
+
+(* ---------------------------------------------------------------- fuel: more of it never changes an answer *)
+Section Fuel.
+  Variables (value : Type) (redv : nat -> list value -> value) (rules : list rule) (T : table).
+
+  Lemma feed_mono : forall f stack vals ty v e,
+    feed value redv rules T f stack vals ty v e <> Stuck value ->
+    forall f', f <= f' -> feed value redv rules T f' stack vals ty v e = feed value redv rules T f stack vals ty v e.
+  Proof.
+    induction f as [|f IH]; intros stack vals ty v e Hne f' Hle; [exfalso; apply Hne; reflexivity|].
+    destruct f' as [|f']; [lia|]. cbn [feed] in *.
+    destruct stack as [|st stack]; [reflexivity|].
+    destruct (lookup (state_row T st) ty) as [[s'|r]|]; try reflexivity.
+    destruct (nth_error rules r) as [ru|]; [|reflexivity].
+    destruct (drop (r_len ru) (st :: stack)) as [|top rest] eqn:Ed; [reflexivity|].
+    destruct (lookup (state_row T top) (r_origin ru)) as [[ns|]|]; try reflexivity.
+    destruct (andb e (Nat.eqb ns (t_end T))); [reflexivity|].
+    apply IH; [exact Hne|lia].
+  Qed.
+End Fuel.
+
+Section FuelText.
+  Variables (order : list terminal) (ignore : list positive) (rules : list rule) (infos : list rinfo)
+            (filtered terminals : list positive) (end_sym : positive) (T : table).
+
+  (* once the text-level parser has answered (a tree or an exception class), every larger budget gives the same answer:
+     the budget of parse_text is not part of the result *)
+  Theorem run_text_mono : forall f stack vals s,
+    run_text order ignore rules infos filtered terminals end_sym T f stack vals s <> PBroken ->
+    forall f', f <= f' ->
+    run_text order ignore rules infos filtered terminals end_sym T f' stack vals s =
+    run_text order ignore rules infos filtered terminals end_sym T f stack vals s.
+  Proof.
+    induction f as [|f IH]; intros stack vals s Hne f' Hle; [exfalso; apply Hne; reflexivity|].
+    destruct f' as [|f']; [lia|]. cbn [run_text] in *.
+    destruct stack as [|st stack]; [reflexivity|].
+    destruct (scan order ignore (accepts terminals T st) s) as [[[tok rest]|]|]; [| |reflexivity].
+    - assert (Hf : feed tree (build infos filtered) rules T (S f) (st :: stack) vals (tok_type tok) (tok_tree tok) false <> Stuck tree).
+      { intros E. apply Hne. rewrite E. reflexivity. }
+      rewrite (feed_mono tree (build infos filtered) rules T (S f) _ _ _ _ _ Hf (S f')) by lia.
+      destruct (feed tree (build infos filtered) rules T (S f) (st :: stack) vals (tok_type tok) (tok_tree tok) false) as [st' vs'| | |] eqn:Ef; try reflexivity.
+      apply IH; [exact Hne|lia].
+    - assert (Hf : feed tree (build infos filtered) rules T (S f) (st :: stack) vals end_sym (TInline []) true <> Stuck tree).
+      { intros E. apply Hne. rewrite E. reflexivity. }
+      rewrite (feed_mono tree (build infos filtered) rules T (S f) _ _ _ _ _ Hf (S f')) by lia. reflexivity.
+  Qed.
+End FuelText.
